@@ -1,7 +1,12 @@
 package sio
 
 import (
+	"encoding/json"
 	"errors"
+	"reflect"
+	"time"
+
+	"github.com/karagenc/socket.io-go/adapter"
 
 	"github.com/karagenc/socket.io-go/parser"
 )
@@ -253,5 +258,51 @@ func verifH_C12_concurrent() {
 	verifAssert((c1ok == 1) == acc1 && (c1err == 1) == !acc1 && c1ok+c1err == 1, "the first client gets exactly the answer its verdict calls for")
 	verifAssert((c2ok == 1) == acc2 && (c2err == 1) == !acc2 && c2ok+c2err == 1, "so does the second")
 	verifAssert(verifHeldLocks() == 0, "no mutex left held")
+	verifReach("end")
+}
+
+// C12_recovery_chain: connection state recovery is ON (middlewares are skipped for RECOVERED sessions by default). A
+// client presents ANY private session id and offset in its CONNECT (each 0..1 symbolic bytes: absent, or one it made
+// up) - nothing was ever persisted, so no session can be restored - to a namespace whose middleware rejects. The
+// claim alone is no ticket past the middlewares: the chain runs, the client is refused with CONNECT_ERROR, nothing of
+// the socket remains. (With an accepting middleware it is admitted as a NEW socket: not marked recovered.)
+//
+//verif:unwind 14
+//verif:rand concrete
+//verif:sleep gate
+func verifH_C12_recovery_chain() {
+	w := &verifSrv{}
+	verifServerWorldWith(w, func() parser.Parser { return verifRecParser{log: &w.encoded} }, adapter.NewSessionAwareAdapterCreator(time.Hour), "/")
+	w.server.connectionStateRecovery.Enabled = true
+	n := w.nsp("/")
+	accept := verifAnyBool()
+	ran := 0
+	n.Use(func(socket ServerSocket, handshake *Handshake) any {
+		ran++
+		if accept {
+			return nil
+		}
+		return "denied"
+	})
+	pid := verifString(verifChoose(0, 1))
+	off := verifString(verifChoose(0, 1))
+	for _, x := range []string{pid, off} {
+		for i := 0; i < len(x); i++ {
+			verifAssume(x[i] >= 'a' && x[i] <= 'z')
+		}
+	}
+	auth := json.RawMessage(`{"pid":"` + pid + `","offset":"` + off + `"}`)
+	w.conn.connect(&parser.PacketHeader{Type: parser.PacketTypeConnect, Namespace: "/"}, func(types ...reflect.Type) ([]reflect.Value, error) {
+		return []reflect.Value{reflect.ValueOf(&auth)}, nil
+	})
+	verifWaitQuiescent()
+	verifAssert(ran == 1, "a session that cannot be restored goes through the middleware chain like any new client")
+	socks := n.Sockets()
+	if accept {
+		verifAssert(len(socks) == 1 && !socks[0].Recovered(), "accepted: admitted as a new socket, not marked recovered")
+	} else {
+		verifAssert(len(socks) == 0, "rejected: nothing of the socket remains")
+		verifAssert(w.countEncoded(parser.PacketTypeConnectError, "/") == 1 && w.countEncoded(parser.PacketTypeConnect, "/") == 0, "rejected: one CONNECT_ERROR, no CONNECT")
+	}
 	verifReach("end")
 }
